@@ -965,6 +965,32 @@ func (env *SpecEnv) call(x *ast.CallExpr) tv {
 		ks, _, _ := arrayParts(a.T.So)
 		k := env.coerceSort(env.eval(x.Args[1]), ks)
 		return tv{T: store(a.T, k.T, tTrue)}
+	case "substr": // substr(s, lo, hi): the Go slice expression s[lo:hi] on strings
+		a := env.eval(x.Args[0])
+		lo := env.coerceSort(env.eval(x.Args[1]), sBV64)
+		hi := env.coerceSort(env.eval(x.Args[2]), sBV64)
+		return tv{T: ex.uninterp(env.st, "substr", sStr, a.T, lo.T, hi.T), Ty: types.Typ[types.String]}
+	case "unchanged": // unchanged(T, field): no object's field changed since the old state
+		t := env.resolveType(x.Args[0])
+		fid, ok := x.Args[1].(*ast.Ident)
+		if t == nil || !ok {
+			sfail("unchanged(Type, field)")
+		}
+		if pt, ok := t.Underlying().(*types.Pointer); ok {
+			t = pt.Elem()
+		}
+		stt, ok := t.Underlying().(*types.Struct)
+		if !ok || env.old == nil {
+			sfail("unchanged: not a struct type or no old state")
+		}
+		for i := 0; i < stt.NumFields(); i++ {
+			if stt.Field(i).Name() == fid.Name {
+				si := ex.u.structOf(t)
+				c := compFieldT(t, i)
+				return tv{T: eq(ex.comp(env.heap, c, si.fields[i]), ex.comp(env.old, c, si.fields[i])), Ty: boolT}
+			}
+		}
+		sfail("unchanged: no field %s", fid.Name)
 	case "bits": // the bit pattern of a value (floats are carried as their IEEE bits)
 		a := env.needTerm(env.eval(x.Args[0]))
 		return tv{T: a.T}
